@@ -39,18 +39,22 @@ def gen_tree(rng, depth, markers):
     return {"name": "", "files": sorted(set(files)), "subs": subs}
 
 
-def materialise(tree, path):
+def materialise(tree, path, same_name=False):
+    """`same_name`: every project of the tree is the same project at the same version (an in-tree package and its
+    vendored or archived copies) - they are still different directories"""
+    import zlib
     os.makedirs(path, exist_ok=True)
+    num = zlib.crc32(path.encode()) % 100000
     for f in tree["files"]:
         with open(os.path.join(path, f), "w") as fh:
             if f == "setup.cfg":
-                fh.write("[metadata]\nname = p%d\nversion = 1.0\n" % (abs(hash(path)) % 100000))
+                fh.write("[metadata]\nname = %s\nversion = 1.0\n" % ("common" if same_name else "p%d" % num))
             elif f == "pyproject.toml":
-                fh.write("[project]\nname = \"q%d\"\nversion = \"1.0\"\n" % (abs(hash(path)) % 100000))
+                fh.write("[project]\nname = \"%s\"\nversion = \"1.0\"\n" % ("common" if same_name else "q%d" % num))
             elif f == "setup.py":
-                fh.write("from setuptools import setup\nsetup(name='s%d', version='1.0')\n" % (abs(hash(path)) % 100000))
+                fh.write("from setuptools import setup\nsetup(name='%s', version='1.0')\n" % ("common" if same_name else "s%d" % num))
     for s in tree["subs"]:
-        materialise(s, os.path.join(path, s["name"]))
+        materialise(s, os.path.join(path, s["name"]), same_name)
 
 
 def scan(path, name):
@@ -103,14 +107,15 @@ class WalkStream(Stream):
             else:
                 excluded.append([rng.choice(NAMES)])   # may not exist
         return {"tree": tree, "root_name": rng.choice(["root", "build", "venv", "proj"]), "excluded": excluded,
-                "markers": user_markers, "parallelism": rng.choice([1, 1, 2, 8]), "full": rng.random() < 0.15}
+                "markers": user_markers, "parallelism": rng.choice([1, 1, 2, 8]), "full": rng.random() < 0.15,
+                "same_name": rng.random() < 0.2}
 
     def _root(self, case):
         from rv.core import digest
         base = os.path.join(self.tmp, digest(case))
         root = os.path.join(base, case["root_name"])
         if not os.path.exists(root):
-            materialise(case["tree"], root)
+            materialise(case["tree"], root, case.get("same_name", False))
         return base, root
 
     def impl(self, case):
@@ -218,6 +223,8 @@ class WalkStream(Stream):
             fl.append("special-dir")
         if case["excluded"]:
             fl.append("excluded-path")
+        if case.get("same_name") and r.get("mode") == "full":
+            fl.append("several-roots-hold-the-same-project-and-version")
         if any(e is None for e in case["excluded"]):
             fl.append("root-excluded")
         if names & {"tests", "test", "lib-tests", "x-test"}:
